@@ -660,6 +660,9 @@ func init() {
 	reg("fmt.Sprintf", func(fr *frame, args []value) value {
 		return fr.i.symSprintf(args[0], args[1].([]value))
 	})
+	reg("fmt.Sscanf", func(fr *frame, args []value) value {
+		return fr.i.symSscanf(args[0], args[1], args[2].([]value))
+	})
 	reg("fmt.Sprint", func(fr *frame, args []value) value {
 		return fr.i.symSprint(args[0].([]value), false)
 	})
@@ -1111,4 +1114,90 @@ func (i *interpreter) symParseIntBase0(fr *frame, sv value) value {
 		val = Add(Mul(val, IntLit(base)), d)
 	}
 	return tuple{mkval(val, types.Int64), nilError()}
+}
+
+// symSscanf models fmt.Sscanf for a concrete format made of %d verbs and
+// literal non-space bytes, with *int operands (fmt/scan.go): before a number
+// blanks (space, tab, CR) are skipped, an optional sign and a maximal run of
+// [0-9_] is taken and parsed in base 10 (an underscore makes it fail); a
+// literal must match the next input byte; input left over after the format
+// is ignored. A symbolic input is decomposed by a word equation.
+func (i *interpreter) symSscanf(sv, fv value, ops []value) value {
+	format, ok := fv.(string)
+	if !ok {
+		panic(engineError{"fmt.Sscanf with a symbolic format"})
+	}
+	p := i.path
+	s := mustTerm(sv)
+	const blanks = `(re.* (re.union (str.to_re " ") (str.to_re "\u{9}") (str.to_re "\u{d}")))`
+	const sign = `(re.opt (re.union (str.to_re "+") (str.to_re "-")))`
+	const digits = `(re.+ (re.range "0" "9"))`
+	// rest: empty or starting with a byte that cannot extend the last number
+	const restRe = `(re.union (str.to_re "") (re.++ (re.diff re.allchar (re.union (re.range "0" "9") (str.to_re "_"))) re.all))`
+	type numPart struct{ sign, digits *Term }
+	var parts []*Term
+	var nums []numPart
+	var res []string
+	lastWasNum := false
+	for k := 0; k < len(format); k++ {
+		c := format[k]
+		if c == '%' && k+1 < len(format) && format[k+1] == 'd' {
+			k++
+			w := p.Fresh("scan.blank", SStr)
+			g := p.Fresh("scan.sign", SStr)
+			d := p.Fresh("scan.digits", SStr)
+			parts = append(parts, w, g, d)
+			res = append(res, blanks, sign, digits)
+			nums = append(nums, numPart{g, d})
+			lastWasNum = true
+			continue
+		}
+		if c == '%' || c == ' ' || c == '\n' || c == '\t' || (lastWasNum && (c >= '0' && c <= '9' || c == '_')) {
+			panic(engineError{"fmt.Sscanf format not modelled: " + format})
+		}
+		parts = append(parts, StrLit(string(c)))
+		res = append(res, "")
+		lastWasNum = false
+	}
+	if len(nums) != len(ops) || !lastWasNum {
+		panic(engineError{"fmt.Sscanf format not modelled: " + format})
+	}
+	rest := p.Fresh("scan.rest", SStr)
+	whole := StrLit("")
+	conds := []*Term{}
+	full := ""
+	for k, t := range parts {
+		whole = Concat(whole, t)
+		if res[k] != "" {
+			conds = append(conds, InRe(t, res[k]))
+			full += " " + res[k]
+		} else {
+			full += " (str.to_re " + t.String() + ")"
+		}
+	}
+	whole = Concat(whole, rest)
+	matches := InRe(s, "(re.++"+full+" "+restRe+")")
+	if p.branch(matches) {
+		p.Assume(Eq(s, whole))
+		for _, c := range conds {
+			p.Assume(c)
+		}
+		p.Assume(InRe(rest, restRe))
+		for k, n := range nums {
+			v := StrToInt(n.digits)
+			val := Ite(Eq(n.sign, StrLit("-")), Neg(v), v)
+			ptr, ok := ops[k].(iface)
+			if !ok {
+				panic(engineError{"fmt.Sscanf operand"})
+			}
+			cell, ok := ptr.v.(*value)
+			if !ok || cell == nil {
+				panic(engineError{"fmt.Sscanf operand is not a pointer"})
+			}
+			i.store(types.Typ[types.Int], cell, mkval(val, types.Int))
+		}
+		return tuple{len(nums), nilError()}
+	}
+	// failure: how many operands were assigned before is not modelled beyond "fewer than all"
+	return tuple{0, i.mkError("input does not match format")}
 }
